@@ -611,6 +611,7 @@ struct Runner<'a> {
     /// entity -> (event index of the previous publication, mark failed right after it)
     published: HashMap<String, (usize, bool)>,
     prev_beacons: Vec<String>,
+    prev_tables: String,
     cfg: &'a RunCfg,
 }
 
@@ -833,6 +834,12 @@ impl<'a> Runner<'a> {
             }
         }
         self.prev_beacons = beacons;
+        // a restart keeps the three tables
+        let tables = self.obs[self.obs.len() - 2].splitn(5, '/').nth(4).unwrap_or("").to_string() + "|" + &self.obs[self.obs.len() - 1];
+        if matches!(ev, Ev::Restart) && idx > 0 && tables != self.prev_tables {
+            self.sfail("state-lost-on-restart", format!("event {idx}: tables before the restart {} and after it {}", self.prev_tables, tables));
+        }
+        self.prev_tables = tables;
     }
 
     fn sfail(&mut self, class: &str, what: String) {
@@ -1149,7 +1156,7 @@ async fn run_case(name: &str, fx: &Fixture, cfg: &RunCfg, seed: u64, len: usize,
         states: BTreeSet::new(),
         results: BTreeMap::new(),
     };
-    let mut r = Runner { w: &w, inc: Some(inc), book, evs: vec![], obs: vec![], seen_posts: 0, seen_pubs: 0, out, published: HashMap::new(), prev_beacons: vec![], cfg };
+    let mut r = Runner { w: &w, inc: Some(inc), book, evs: vec![], obs: vec![], seen_posts: 0, seen_pubs: 0, out, published: HashMap::new(), prev_beacons: vec![], prev_tables: String::new(), cfg };
     match script {
         Some(evs) => {
             for ev in evs.iter() {
